@@ -88,6 +88,7 @@ package testonly
 // nothing else is reported.
 //@ func CheckTestOnly
 //@   props C03 C07 C08 C12 C14 C10
+//@   assigns nothing
 //@   requires cfg != nil && pass.Pkg != nil && packageAnnotations != nil && (ignoreSet != nil ==> isetInv(ignoreSet))
 //@   ensures forall j int :: 0 <= j && j < len(result) ==> justifiedT(cfg, pass, packageAnnotations, ignoreSet, result[j])
 //@   ensures forall f *ast.File :: contains(pass.Files, f) && !skipFile(cfg, pass, f) && !strings.HasSuffix(fname(pass, f), "_test.go") ==> doneFile(pass, packageAnnotations, ignoreSet, result, f)
@@ -102,3 +103,26 @@ package testonly
 //@   at call ast.Inspect#1 invariant forall k int, key string, pos token.Pos :: 0 <= k && k < $i && live(pass, packageAnnotations, ignoreSet, $seq[k], key, pos) ==> reportedTypes[key]
 //@   at call ast.Inspect#1 invariant forall key string :: reportedTypes[key] ==> (exists j int :: atentry(len(violations)) <= j && j < len(violations) && violations[j].Code == "TONL01" && vkey(violations[j]) == key && violations[j].UsedInFile == fileName)
 //@   at call ast.Inspect#1 invariant doneUpTo(pass, packageAnnotations, ignoreSet, violations, file, $i)
+
+//@ func TestOnlyViolation.GetCode
+//@   props C17 C10
+//@   ensures result == v.Code
+//@   assigns nothing
+//@ func TestOnlyViolation.GetPos
+//@   props C17 C10
+//@   ensures result == v.Pos
+//@   assigns nothing
+
+// ---- C17 / C08: every violation that the suppression set does not cover is emitted, at its position ----------------
+//@ pure func shown_testonly(ign *util.IgnoreSet, vs []TestOnlyViolation, m int) rec int = m <= 0 ? 0 : (shown_testonly(ign, vs, m-1) + (supp(ign, vs[m-1].Code, vs[m-1].Pos) ? 0 : 1))
+//@ func ReportViolations
+//@   props C17 C08 C07 C10
+//@   requires true
+//@   assigns pass.$reports
+//@   ensures len(pass.$reports) == old(len(pass.$reports)) + shown_testonly(nil, violations, len(violations))
+//@   ensures forall k int :: 0 <= k && k < old(len(pass.$reports)) ==> pass.$reports[k] == old(pass.$reports)[k]
+//@   ensures forall j int :: 0 <= j && j < len(violations) && !supp(nil, violations[j].Code, violations[j].Pos) ==> (exists k int :: old(len(pass.$reports)) <= k && k < len(pass.$reports) && pass.$reports[k].Pos == violations[j].Pos)
+//@   loop 1 invariant reporterOK(reporter) && reporter.pass == pass && reporter.ignoreSet == nil && 0 <= shown_testonly(nil, violations, $i)
+//@   loop 1 invariant len(pass.$reports) == old(len(pass.$reports)) + shown_testonly(nil, violations, $i)
+//@   loop 1 invariant forall k int :: 0 <= k && k < old(len(pass.$reports)) ==> pass.$reports[k] == old(pass.$reports)[k]
+//@   loop 1 invariant forall j int :: 0 <= j && j < $i && !supp(nil, violations[j].Code, violations[j].Pos) ==> (exists k int :: old(len(pass.$reports)) <= k && k < len(pass.$reports) && pass.$reports[k].Pos == violations[j].Pos)
